@@ -857,6 +857,9 @@ class _ProbeContextInjectorNode(_ProbeNode):
 
         data = payload.data
         context = payload.context
+        # Give the probe access to the run context the same way data nodes do, so
+        # that a swept probe can publish its ``<var>_values`` sequences.
+        setattr(self.processor, "observer_context", context)
         parameters = self._get_processor_parameters(context)
         probe_result = self.processor.process(data, **parameters)
         if isinstance(context, ContextCollectionType):
